@@ -9,6 +9,7 @@ mod s_authz;
 mod s_blockparse;
 mod s_capi;
 mod s_chain;
+mod s_convert;
 mod s_determ;
 mod s_engine;
 mod s_expr;
@@ -57,6 +58,7 @@ fn main() {
         "exprparse" => s_exprparse::run(&opts),
         "itemparse" => s_itemparse::run(&opts),
         "blockparse" => s_blockparse::run(&opts),
+        "convert" => s_convert::run(&opts),
         "macros" => s_macros::run(&opts),
         "capi" => s_capi::run(&opts),
         "capi-child" => s_capi::child(&opts),
